@@ -58,6 +58,10 @@ MUTANTS = [
  ("S08", [], T, "    fn hash<H: std::hash::Hasher>(&self, state: &mut H) {\n        match self {\n            // 原子词项 //", "    fn hash<H: std::hash::Hasher>(&self, state: &mut H) {\n        std::mem::discriminant(self).hash(state);\n        match self {\n            // 原子词项 //", "Hash also feeds the constructor discriminant"),
  ("S09", [], F, "        template_compound_set(\n            out,\n            bracket_left,\n            components.iter().map(|term| self.format_term(term)),", "        let mut sorted: Vec<String> = components.iter().map(|term| self.format_term(term)).collect();\n        sorted.sort();\n        template_compound_set(\n            out,\n            bracket_left,\n            sorted.into_iter(),", "enum formatter prints the elements of {..} / [..] sets in sorted order (canonical output)"),
  ("S05", [], T, "            // 一元\n            Negation(..) => Unary,", "            Negation(..) => Unary, // 一元", "comment moved (no semantic change)"),
+ # property-preserving edits aimed at the round-5 generators (slots, contexts, environment replica)
+ ("S10", [], LP, "    // 获取字符迭代器\n    let chars = input.chars();", "    // per-thread scratch statistics, the ordinary way (`LocalKey::with` on a value with a destructor)\n    thread_local! { static SCRATCH: std::cell::RefCell<Vec<char>> = std::cell::RefCell::new(Vec::new()); }\n    SCRATCH.with(|s| { let mut s = s.borrow_mut(); s.clear(); s.extend(input.chars().take(16)); });\n    let chars = input.chars();", "lexical parser keeps a per-thread scratch buffer (thread_local + with): behaviour unchanged"),
+ ("S11", [], P, "    pub fn parse_error(&self, message: &str) -> ParseError {\n        ParseError::new(message, self.env.clone(), self.head)", "    pub fn parse_error(&self, message: &str) -> ParseError {\n        if std::env::var_os(\"NARSESE_PARSE_TRACE\").is_some() {\n            eprintln!(\"parse error at {} of {}: {message}\", self.head, self.env.len());\n        }\n        ParseError::new(message, self.env.clone(), self.head)", "enum parser prints a trace line per error when an environment variable is set (safe)"),
+ ("S12", [], P, "    fn starts_with(&self, to_compare: &str) -> bool {", "    fn starts_with(&self, to_compare: &str) -> bool {\n        // per-format call statistics keyed by the format's CONTENT (its judgement punctuation), not its address\n        thread_local! { static CALLS: std::cell::RefCell<std::collections::HashMap<String, u64>> = std::cell::RefCell::new(std::collections::HashMap::new()); }\n        let _ = CALLS.try_with(|c| *c.borrow_mut().entry(self.format.sentence.punctuation_judgement.to_string()).or_insert(0) += 1);", "enum parser counts calls per format content in a thread-local map (behaviour unchanged)"),
 ]
 
 # mutants that need more than one edit
